@@ -187,12 +187,15 @@ Qed.
 Definition int_src_bytes_ok (src : int_src) : Prop :=
   match src with SFromBytes bs => bytes_ok bs | _ => True end.
 
+Lemma two64_Z x : (x <? two64)%N = true -> 0 <= Z.of_N x < two64Z.
+Proof. intros H. assert (Z.of_N two64 = two64Z) by reflexivity. lia. Qed.
+
 Lemma int_from_bytes_in_range bs z : bytes_ok bs -> int_from_bytes bs = Ok z -> int_in_range z = true.
 Proof.
   intros B. unfold int_from_bytes, int_deserialize. destruct (decode_head bs) as [[[m a] r]|] eqn:D; [|discriminate].
   destruct a as [arg|]; [|destruct m as [|[|[|[]|]|]]; discriminate].
   pose proof (decode_head_arg_bound bs m arg r B D) as Bn.
-  assert (Bz : 0 <= Z.of_N arg < two64Z) by (unfold two64, two64Z in *; lia). clear Bn D.
+  assert (Bz : 0 <= Z.of_N arg < two64Z) by (apply two64_Z; lia). clear Bn D.
   destruct m as [|[|[|[]|]|]]; cbn [bind]; try discriminate; intros X; inversion X; subst; apply int_in_range_iff; lia.
 Qed.
 
@@ -204,7 +207,7 @@ Proof.
     pose proof (Z.mod_pos_bound (- x) two64Z eq_refl). rewrite Z2N.id by lia. lia. }
   destruct (parse_u64 (c :: s)) as [x| | |] eqn:P.
   - apply parse_u64_bound in P. intros X. inversion X; subst. apply int_in_range_iff.
-    unfold int_new. assert (Z.of_N x < two64Z) by (unfold two64, two64Z in *; lia). lia.
+    unfold int_new. assert (0 <= Z.of_N x < two64Z) by (apply two64_Z; lia). lia.
   - destruct (parse_i64 (c :: s)) as [x| | |]; try discriminate.
     destruct ((x =? - two63) && negb jf && oc); [discriminate|]. intros X. inversion X; subst. apply Neg.
   - destruct (parse_i64 (c :: s)) as [x| | |]; try discriminate.
@@ -216,23 +219,22 @@ Qed.
 Theorem int_obtain_in_range src z : int_src_wf src = true -> int_src_bytes_ok src ->
   int_obtain src = Some z -> int_in_range z = true.
 Proof.
-  intros W B. unfold int_obtain. destruct src; cbn [int_obtain_gen int_src_wf int_src_bytes_ok] in *.
-  - intros X. inversion X; subst. apply int_in_range_iff. unfold int_new.
-    assert (Z.of_N x < two64Z) by (unfold two64, two64Z in *; lia). lia.
-  - intros X. inversion X; subst. apply int_in_range_iff. unfold int_new_negative.
-    assert (Z.of_N x < two64Z) by (unfold two64, two64Z in *; lia). lia.
-  - intros X. inversion X; subst. apply int_in_range_iff. unfold int_new_i32, two31, two64Z in *. lia.
+  intros W B. unfold int_obtain. destruct src; cbn [int_obtain_gen int_src_wf int_src_bytes_ok] in W, B |- *.
+  - intros [= <-]. apply two64_Z in W. apply int_in_range_iff. unfold int_new. lia.
+  - intros [= <-]. apply two64_Z in W. apply int_in_range_iff. unfold int_new_negative. lia.
+  - intros [= <-]. apply int_in_range_iff. unfold int_new_i32. change two31 with 2147483648 in W.
+    assert (2147483648 < two64Z) by reflexivity. lia.
   - unfold int_from_str. destruct (parse_i128 s) as [x| | |]; cbn [bind]; try discriminate.
-    destruct (int_in_range x) eqn:R; [intros X; inversion X; subst; exact R | discriminate].
+    destruct (int_in_range x) eqn:R; [intros [= <-]; exact R | discriminate].
   - destruct (int_from_bytes bs) as [x| | |] eqn:E; try discriminate.
-    intros X. inversion X; subst. eapply int_from_bytes_in_range; eassumption.
+    intros [= <-]. eapply int_from_bytes_in_range; eassumption.
   - unfold bigint_as_int. destruct (Z.abs z0 <? two64Z) eqn:A; [|discriminate].
-    intros X. inversion X; subst. apply int_in_range_iff. lia.
+    intros [= <-]. apply int_in_range_iff. lia.
   - destruct (meta_encode_number_gen true false s) as [x| | |] eqn:E; try discriminate.
-    intros X. inversion X; subst. eapply meta_encode_number_in_range; eassumption.
+    intros [= <-]. eapply meta_encode_number_in_range; eassumption.
   - unfold meta_key_int_gen, meta_key_checked. destruct (parse_i128 s) as [x| | |]; try discriminate.
     destruct ((- int_max <=? x) && (x <=? int_max)) eqn:R; [|discriminate].
-    intros X. inversion X; subst. apply int_in_range_iff. unfold int_max in *. lia.
+    intros [= <-]. apply int_in_range_iff. unfold int_max in R. lia.
   - intros G. eapply ms_get_in_range; [|exact G]. apply mint_run_in_range; [apply Forall_nil | exact W].
 Qed.
 
@@ -245,5 +247,5 @@ Proof. split; vm_compute; reflexivity. Qed.
 (* premises of int_obtain_in_range are satisfiable on non-trivial sources *)
 Example int_obtain_example :
   let src := SMint [MAdd 1%N int_min; MSet 2%N 5; MAdd 1%N int_max; MAdd 1%N int_max; MAdd 1%N 7] 1%N in
-  int_src_wf src = true /\ int_src_bytes_ok src /\ int_obtain src = Some int_max.
+  int_src_wf src = true /\ int_src_bytes_ok src /\ int_obtain src = Some (int_max - 1).
 Proof. repeat split; vm_compute; reflexivity. Qed.
